@@ -37,11 +37,14 @@ func zzCells(name string, nrows, ncols, cellLen int) [][]string {
 }
 
 func zzIngest(db objects.Store, in [][]string, ncols int, pk []uint32, runSize uint64, workers int) ([]byte, error) {
+	return zzIngestCols(db, in, []string{"a", "b", "c"}[:ncols], pk, runSize, workers)
+}
+
+func zzIngestCols(db objects.Store, in [][]string, cols []string, pk []uint32, runSize uint64, workers int) ([]byte, error) {
 	s, err := sorter.NewSorter(sorter.WithRunSize(runSize))
 	if err != nil {
 		panic(err)
 	}
-	cols := []string{"a", "b", "c"}[:ncols]
 	s.Columns = cols // not SetColumns: the data profiler (float statistics) is outside the claim
 	s.PK = pk
 	for _, r := range in {
@@ -322,7 +325,11 @@ func Harness_ingest_identity() {
 	}
 	// second arrival order: a rotation / swap chosen by the explorer
 	perm := make([][]string, nrows)
-	switch zzverif.Choose("order", 3) {
+	ord := 2
+	if zzverif.Param("part", 0) != 3 {
+		ord = zzverif.Choose("order", 3)
+	}
+	switch ord {
 	case 0:
 		for i := range in {
 			perm[i] = in[nrows-1-i]
@@ -361,6 +368,11 @@ func Harness_ingest_identity() {
 		zzverif.Reach("end")
 		return
 	}
+	if part == 3 {
+		zzIdentityHeaderVariants(in, ncols, pk, s1, r2)
+		zzverif.Reach("end")
+		return
+	}
 	// one cell changed => different identifier
 	mod := make([][]string, nrows)
 	for i := range in {
@@ -382,4 +394,82 @@ func Harness_ingest_identity() {
 		zzverif.Assert("different-cell-different-identifier", !bytes.Equal(s1, s3))
 	}
 	zzverif.Reach("end")
+}
+
+// part 3 of C02's identity obligation: the same rows under a different header -
+// one column renamed (a handful of concrete other names), the two columns listed in the other
+// order (cells moved along, so the logical mapping name -> value is unchanged), or a
+// different primary key - must get a different identifier.
+func zzIdentityHeaderVariants(in [][]string, ncols int, pk []uint32, s1 []byte, r2 uint64) {
+	cols := []string{"a", "b", "c"}[:ncols]
+	switch zzverif.Choose("headerVariant", 3) {
+	case 0: // one column renamed
+		j := zzverif.Choose("renamedCol", ncols)
+		// concrete alternatives (the ingest code puts column names into a Go map):
+		// another letter, the other case, a longer name, a name with a trailing blank
+		alts := []string{"z", "A", "B", cols[j] + cols[j], cols[j] + " ", " " + cols[j]}
+		nn := alts[zzverif.Choose("newName", len(alts))]
+		cols2 := append([]string{}, cols...)
+		for _, c := range cols {
+			if nn == c {
+				return
+			}
+		}
+		cols2[j] = nn
+		s, err := zzIngestCols(zzrepo.NewAssocStore(), in, cols2, pk, r2, 1)
+		zzverif.Assert("ingest-no-error", err == nil)
+		if err == nil {
+			zzverif.Assert("different-column-name-different-identifier", !bytes.Equal(s1, s))
+		}
+	case 1: // columns 0 and 1 listed in the other order, cells and key moved along
+		cols2 := append([]string{}, cols...)
+		cols2[0], cols2[1] = cols2[1], cols2[0]
+		sw := make([][]string, len(in))
+		for i := range in {
+			sw[i] = append([]string{}, in[i]...)
+			sw[i][0], sw[i][1] = sw[i][1], sw[i][0]
+		}
+		pk2 := make([]uint32, len(pk))
+		for i, u := range pk {
+			switch u {
+			case 0:
+				pk2[i] = 1
+			case 1:
+				pk2[i] = 0
+			default:
+				pk2[i] = u
+			}
+		}
+		s, err := zzIngestCols(zzrepo.NewAssocStore(), sw, cols2, pk2, r2, 1)
+		zzverif.Assert("ingest-no-error", err == nil)
+		if err == nil {
+			zzverif.Assert("different-column-order-different-identifier", !bytes.Equal(s1, s))
+		}
+	case 2: // another primary key under which the keys are unique too
+		x := zzverif.Choose("otherPK", len(zzPKs))
+		pk2 := zzPKs[x]
+		same := len(pk2) == len(pk)
+		for i := 0; same && i < len(pk); i++ {
+			same = pk2[i] == pk[i]
+		}
+		for _, u := range pk2 {
+			if int(u) >= ncols {
+				same = true // not a key of this table
+			}
+		}
+		if same {
+			return
+		}
+		kc2 := zzKeyCols(ncols, pk2)
+		for i := range in {
+			for j := 0; j < i; j++ {
+				zzverif.Assume(!zzKeyEq(kc2, in[i], in[j]))
+			}
+		}
+		s, err := zzIngestCols(zzrepo.NewAssocStore(), in, cols, pk2, r2, 1)
+		zzverif.Assert("ingest-no-error", err == nil)
+		if err == nil {
+			zzverif.Assert("different-primary-key-different-identifier", !bytes.Equal(s1, s))
+		}
+	}
 }
